@@ -4,6 +4,7 @@ import (
 	"fmt"
 	"math/rand/v2"
 	"sort"
+	"sync"
 	"testing"
 
 	"github.com/high-moctane/mocrelay"
@@ -48,6 +49,67 @@ func runCacheHistory(g *vk.StoreGen, capacity, n int, onStep func(c *mocrelay.Ev
 		}
 		before = after
 	}
+}
+
+
+// concurrentDeletionPairs is the concurrent reading of the retention rules: an event and
+// a deletion request of its author that references it are inserted at the same time
+// (with a delay injected between the phases of Add); whatever the order, the quiescent
+// store may never hold the event together with the retained request, and the reported
+// flags must fit one of the two sequential orders.
+func concurrentDeletionPairs(rep *vk.Report, stream string, rounds int) {
+	pc := &pointCtl{sleep: true, only: "cache.add"}
+	mocrelay.SetVerifPoint(pc.fn)
+	defer mocrelay.SetVerifPoint(nil)
+	vk.ParallelW(4, rounds, func(i int) {
+		if rep.Violations() >= 3 {
+			return
+		}
+		r := vk.RNG(stream, i)
+		author := vk.FakePub(3000 + r.IntN(3))
+		kind := vk.Pick(r, []int64{1, 0, 10002, 30000})
+		e := &mocrelay.Event{Kind: kind, Pubkey: author, CreatedAt: int64(1000 + r.IntN(50)), Content: fmt.Sprintf("%s-e-%d", stream, i), Tags: []mocrelay.Tag{}}
+		if kind == 30000 {
+			e.Tags = append(e.Tags, mocrelay.Tag{"d", "x"})
+		}
+		vk.Seal(e)
+		ref := mocrelay.Tag{"e", e.ID}
+		if kind == 30000 && r.IntN(2) == 0 {
+			ref = mocrelay.Tag{"a", vk.AddrTag(e)}
+		}
+		k := vk.Seal(&mocrelay.Event{Kind: 5, Pubkey: author, CreatedAt: int64(1100 + r.IntN(50)), Content: fmt.Sprintf("%s-k-%d", stream, i), Tags: []mocrelay.Tag{ref}})
+		capacity := 4 + r.IntN(8)
+		c := mocrelay.NewEventCache(capacity)
+		for j, n := 0, r.IntN(4); j < n; j++ {
+			c.Add(vk.Seal(&mocrelay.Event{Kind: 1, Pubkey: vk.FakePub(3100 + j), CreatedAt: int64(2000 + j), Content: fmt.Sprintf("%s-bg-%d-%d", stream, i, j), Tags: []mocrelay.Tag{}}))
+		}
+		var fe, fk bool
+		var wg sync.WaitGroup
+		start := make(chan struct{})
+		wg.Add(2)
+		go func() { defer wg.Done(); <-start; fe = c.Add(e) }()
+		go func() { defer wg.Done(); <-start; fk = c.Add(k) }()
+		close(start)
+		wg.Wait()
+		R := c.Find(matchAll)
+		rep.Eval(1)
+		rep.Count("concurrent_deletion_pairs", 1)
+		hasE, hasK := false, false
+		for _, x := range R {
+			hasE = hasE || x.ID == e.ID
+			hasK = hasK || x.ID == k.ID
+		}
+		wit := map[string]any{"event": vk.ShortEvent(e), "deletion_request": vk.ShortEvent(k), "add_event_reported": fe, "add_request_reported": fk, "retained": shortIDs(R)}
+		if sig, why := vk.CheckInvariants(capacity, R); sig != "" {
+			rep.Violation("concurrent/"+sig, "after Add(event) and Add(deletion request) ran concurrently: "+why, wit)
+			return
+		}
+		// sequential orders: E then K -> (true,true), only K retained; K then E -> (false,true), only K retained
+		if !fk || !hasK || hasE {
+			rep.Violation("concurrent/deletion-request-outcome", fmt.Sprintf("no sequential order gives request reported=%v retained=%v, event retained=%v", fk, hasK, hasE), wit)
+		}
+	})
+	pc.report(rep)
 }
 
 func capFor(r *rand.Rand) int {
@@ -103,6 +165,8 @@ func TestVerif_C04(t *testing.T) {
 			return true
 		})
 	})
+	concurrentDeletionPairs(rep, "C04/pairs", vk.N(1500, 30000))
+	rep.Require(rep.Counter("hook_hits:cache.add.checked") > 500, "verifPoint cache.add.checked not reached")
 	for _, c := range []string{"new", "duplicate", "older", "suppressed", "replace", "delete-1", "new+evict", "evict-self", "ephemeral", "tie-kept"} {
 		rep.Require(rep.Counter("class:"+c) >= 5, "transition class "+c+" seen fewer than 5 times")
 	}
@@ -243,6 +307,7 @@ func TestVerif_C05(t *testing.T) {
 			return true
 		})
 	})
+	concurrentDeletionPairs(rep, "C05/pairs", vk.N(1500, 30000))
 	for _, c := range []string{"suppressed", "delete-1", "delete-2", "deletion-request"} {
 		rep.Require(rep.Counter("class:"+c) >= 20, "transition class "+c+" seen fewer than 20 times")
 	}
